@@ -245,4 +245,23 @@ theorem opposite_returns (w h : Int) (hw : 0 < w) (hh : 0 < h) (a : P2)
   · simp only; rw [show a.1 + d.1 + -d.1 = a.1 by omega, Int.emod_eq_of_lt hx.1 hx.2]
   · simp only; rw [show a.2 + d.2 + -d.2 = a.2 by omega, Int.emod_eq_of_lt hy.1 hy.2]
 
+/-- **The torus vector, walked longest-dimension-first, is a shortest route.** For every outcome of all
+seven random draws and every spiral count: walking the vector returned by `shortest_torus_path` from the
+source chip visits adjacent chips through the labelled links, takes exactly `shortest_torus_path_length`
+hops (the graph distance, by `torusLen_eq_dist`) and ends exactly on the destination chip. -/
+theorem torus_vector_walk (s d : V3) (w h : Int) (hw : 1 ≤ w) (hh : 1 ≤ h)
+    (den k0 k1 k2 k3 t : Nat) (h0 : k0 < den) (h1 : k1 < den) (h2 : k2 < den) (h3 : k3 < den)
+    (den' j0 j1 j2 : Nat) (g0 : j0 < den') (g1 : j1 < den') (g2 : j2 < den') :
+    ∃ v path, torusPath s d w h den k0 k1 k2 k3 t = .ok v ∧
+      ldf v (projT s w h) (some w) (some h) den' j0 j1 j2 = .ok path ∧
+      torusLen s d w h = .ok (path.length : Int) ∧
+      walkOk (some w) (some h) (projT s w h) path = true ∧
+      lastPos (projT s w h) path = projT d w h ∧
+      Reach (some w) (some h) path.length (projT s w h) (projT d w h) := by
+  obtain ⟨v, path, a1, a2, a3, a4, a5⟩ :=
+    torus_walk_compose s d w h hw hh den k0 k1 k2 k3 t h0 h1 h2 h3 den' j0 j1 j2 g0 g1 g2
+  refine ⟨v, path, a1, a2, a3, a4, a5, ?_⟩
+  have := walkOk_reach (some w) (some h) (projT s w h) path a4
+  rwa [a5] at this
+
 end Rig.C11
